@@ -111,6 +111,19 @@ func All() []Query {
 			})
 		}
 	}
+	for _, peer := range []string{"", "p1"} {
+		peer := peer
+		sfx := ""
+		if peer != "" {
+			sfx = "~" + peer
+		}
+		add("catalog", "catalog.service-dump"+sfx, func(st *state.Store, ws memdb.WatchSet) (uint64, any, error) {
+			return st.ServiceDump(ws, "", false, structs.WildcardEnterpriseMetaInDefaultPartition(), peer)
+		})
+		add("catalog", "catalog.service-dump(kind=connect-proxy)"+sfx, func(st *state.Store, ws memdb.WatchSet) (uint64, any, error) {
+			return st.ServiceDump(ws, structs.ServiceKindConnectProxy, true, structs.WildcardEnterpriseMetaInDefaultPartition(), peer)
+		})
+	}
 	add("catalog", "catalog.node-dump", func(st *state.Store, ws memdb.WatchSet) (uint64, any, error) { return st.NodeDump(ws, nil, "") })
 	add("catalog", "catalog.gateway-services(tgw)", func(st *state.Store, ws memdb.WatchSet) (uint64, any, error) { return st.GatewayServices(ws, "tgw", nil) })
 	add("catalog", "catalog.gateway-services(igw)", func(st *state.Store, ws memdb.WatchSet) (uint64, any, error) { return st.GatewayServices(ws, "igw", nil) })
